@@ -15,6 +15,7 @@ STRENGTHENED = [
  ("C16-D", "C16: the term-reward precompile on top of earlier settings (one negative) under all 6 controlled map iteration orders (source overlay pass maprange on chain/vm/contracts.go)"),
  ("C11-C, C11-D", "C11: phases R (work the miner rolls back: boxes with failing later sub-transactions, gas limit reached inside a box, reverting value flows) and T (term boundaries: rewards and refunds crossing the vote step of voting receivers), built by the C11 extension; genuine defect d76a359 found on the way"),
  ("C17-C", "C17: scenario sCopy with SecureTrie.Copy() in the alphabet: the copy must keep the content it had when it was taken (reads and root) whatever is written to the original afterwards"),
+ ("C18-D", "C19: 16th scenario insert || confirms-of-other-fork (InsertBlock of a transaction-carrying block on the head || a confirm package that makes the sibling-fork block stable): the pool content after a confirm-driven fork switch is under the sequential-reference oracle"),
  ("C13-C", "C13: schedule phase drives the real (*Miner).schedule / mine timer / retry timer under the virtual clock with deputy counts that differ across the term change (built by the C13 extension after this seed)"),
  ("C15-A", "C15: fault menu on the node's WRITES (write error, remote closed, write deadline) for every request that makes the node answer; oracle: Run returns, the server forgets the connection, the same id is welcome again"),
  ("C15-B", "C15: seq/block-cache family: every block sequence of length <= 4 that drives the orphan cache and the evil-deputy list"),
